@@ -104,10 +104,14 @@ def get_body(cfg):
     comps = components(n, snames, sep, False)
     L = nondet_int(0, cfg["L"], "ncomp")
     parts = [comps[nondet_int(0, len(comps) - 1, "comp%d" % j)] for j in range(L)]
+    if cfg.get("missing_attr"):
+        # the last node has no path attribute at all: it resolves under the name str(None)
+        snames[-1] = "None"
     with concrete_region():
         nodes = build(pv, (CLS_VALSEM if cfg.get("valsem") else CLS)[sep])
-        for nd, nm in zip(nodes, names):
-            nd.name = nm
+        for k, (nd, nm) in enumerate(zip(nodes, names)):
+            if not (cfg.get("missing_attr") and k == n - 1):
+                nd.name = nm
         nontrivial()
         rootname = None
         for lead in (0, 1, 2, 3):
